@@ -77,6 +77,7 @@ class CollectionFlow(Engine):
             fresh = dict(fresh)
             del fresh[msg.sym]
             st.mon['sym:fresh'] = fresh
+        st.mon['iter_applied'] = True
         s_fail = st.copy()
         st.emit('merged', f'msg#{msg.sym}', site=self.site(node, st))
         st.mon['merged'] = min((st.mon.get('merged') or 0) + 1, 2)
@@ -90,6 +91,7 @@ class CollectionFlow(Engine):
         if st.frame.func is not None and st.frame.func.short == 'MosCollection.merge':
             st.mon['pending'] = (st.mon.get('pending') or 0) + 1
             st.mon['caught'] = exc.cls
+            st.mon['iter_applied'] = True        # the message was handed over and refused (e.g. by the completion guard)
 
     def on_raise(self, stmt, exc, st):
         # the only exceptions merge() may let out are those of the step itself (re-raised unchanged)
@@ -113,10 +115,20 @@ class CollectionFlow(Engine):
     def on_reorder(self, st, node, list=None, how='', kwargs=None):
         self.find_('FOLD-LOOP', st, node, f'{how}(...)', 'the readers are re-ordered inside merge()')
 
+    def _iteration_applied(self, st, count):
+        """every reader's message must be handed to the running order (merged or failed); an iteration that does neither skips a message"""
+        if count > 0 and st.mon.get('iter_applied') is False:
+            self.find_('FOLD-LOOP', st, None, 'an iteration that applies nothing',
+                       'a reader is skipped: its message is neither merged nor reported (the result is no longer the one-by-one sum of all messages)')
+
     def loop_iter_start(self, st, depth, spec, count):
+        in_merge = st.frame.func is not None and st.frame.func.short == 'MosCollection.merge'
         if count > 0 and (st.mon.get('pending') or 0) > 0 and st.frame.func is not None and st.frame.func.name == 'merge':
             self.find_('ONE-WARNING', st, None, 'next iteration', 'a failed merge was swallowed without a MosMergeNonStrictWarning')
             st.mon['pending'] = 0
+        if in_merge and getattr(spec, 'listsym', None) == st.mon.get('readers_sym'):
+            self._iteration_applied(st, count)
+            st.mon['iter_applied'] = False
         super().loop_iter_start(st, depth, spec, count)
 
     def run_loop(self, itval, st, body, node, joiner=None):
@@ -129,6 +141,8 @@ class CollectionFlow(Engine):
         exits, escapes = super().run_loop(itval, st, body, node, joiner=joiner)
         if top:
             for kind, s in exits:
+                if kind == 'exhausted':
+                    self._iteration_applied(s, 1)
                 if kind == 'break':
                     self.find_('NO-EARLY-EXIT', s, node, 'break', 'the merge loop is left before all messages were applied')
             for ctl, s in escapes:
